@@ -62,8 +62,14 @@ func execLocal(input string) (out string) {
 			out = "PANIC " + common.HexS(fmt.Sprint(r))
 		}
 	}()
-	return execE2E(parseScenario(strings.Fields(input)))
+	f := strings.Fields(input)
+	if f[0] == "opts" {
+		return execOpts(f)
+	}
+	return execE2E(parseScenario(f))
 }
+
+func goroutines() int { return runtime.NumGoroutine() }
 
 // quiesce waits until the goroutines the bridge started for this case are gone, so that nothing touches the
 // recorder while it is read and nothing of this case runs into the next one. false = still running after the budget.
